@@ -503,7 +503,7 @@ def replay(spt, f):
     if not rep:
         print('no one-line reproduction recorded; input:', f.get('input'))
         return True
-    val = eval(rep, {'svgpathtools': spt, 'numpy': np, 'inf': float('inf'), 'nan': float('nan')})
+    val = eval(rep, {'svgpathtools': spt, 'numpy': np, 'np': np, 'inf': float('inf'), 'nan': float('nan')})
     print('observed now :', repr(val))
     print('observed then:', f.get('observed'))
     print('expected     :', f.get('expected'))
